@@ -7,14 +7,12 @@
    driver script per reachable state. *)
 EXTENDS Gossip, Json
 
-CONSTANTS U, MaxOps, FailCs, FailNs, PruneTs, WithReload, RgsSnaps
+CONSTANTS U, MaxOps, FailCs, FailNs, PruneTs, WithReload, RgsSnaps, ResolveCs
 
-VARIABLES ptc, ptp, ptn, hist
-mvars == <<avars, ptc, ptp, ptn, hist>>
+\* hl: scid -> the message the code holds per key while the lookup is pending
+VARIABLES ptc, ptp, ptn, hl, hist
+mvars == <<avars, ptc, ptp, ptn, hl, hist>>
 
-Msg == [k |-> "", c |-> 0, n1 |-> 0, n2 |-> 0, s1 |-> 0, s2 |-> 0, bs |-> 0, chain |-> TRUE,
-        n |-> 0, d |-> 0, ts |-> 0, s |-> 0, en |-> FALSE, cltv |-> 0, hmin |-> 0, hmax |-> 0,
-        fb |-> 0, fp |-> 0, ap |-> 0, w |-> 0]
 CA(c, n1, n2, s1, s2, bs, chain, w) ==
   [Msg EXCEPT !.k = "ca", !.c = c, !.n1 = n1, !.n2 = n2, !.s1 = s1, !.s2 = s2, !.bs = bs,
               !.chain = chain, !.w = w]
@@ -24,7 +22,7 @@ CU(c, d, ts, s, chain, p, hmax) ==
   [Msg EXCEPT !.k = "cu", !.c = c, !.d = d, !.ts = ts, !.s = s, !.chain = chain,
               !.en = (p % 2 = 1), !.cltv = 10 + p, !.hmin = p, !.hmax = hmax, !.fb = 100 + p,
               !.fp = 200 + p]
-NA(n, ts, s, ap) == [Msg EXCEPT !.k = "na", !.n = n, !.ts = ts, !.s = s, !.ap = ap]
+NA(n, ts, s, ap) == [Msg EXCEPT !.k = "na", !.n = n, !.ts = ts, !.s = s, !.ap = ap, !.ad = 1000 + ap]
 
 Universe ==
   CASE U = 1 ->  \* valid messages only: confluence under all orders and duplications
@@ -44,11 +42,13 @@ Universe ==
                CU(1, 0, 100, 1, TRUE, 3, 500000), CU(1, 0, 300, 2, TRUE, 4, 500000),
                CU(1, 0, 300, -1, TRUE, 4, 500000),
                CU(1, 0, 300, 1, TRUE, 5, 1000001), CU(1, 0, 300, 1, FALSE, 6, 500000),
-               CU(2, 0, 100, 2, TRUE, 7, 500000)}]
+               CU(2, 0, 100, 2, TRUE, 7, 500000),
+               CU(1, 0, 200, -2, TRUE, 8, 500000)}]    \* unsigned entry point, equal timestamp
     [] U = 4 ->  \* node announcements and node clean-up
        [lookup |-> FALSE,
         M |-> {CAok(1, 1, 2), CAok(2, 2, 3), NA(2, 200, 2, 1), NA(2, 200, 2, 2), NA(2, 100, 2, 3),
-               NA(2, 300, 0, 4), NA(2, 300, -1, 4), NA(4, 100, 4, 5)}]
+               NA(2, 300, 0, 4), NA(2, 300, -1, 4), NA(4, 100, 4, 5),
+               NA(2, 200, -2, 6)}]                     \* unsigned entry point, equal timestamp
     [] U = 5 ->  \* staleness and pruning
        [lookup |-> FALSE,
         M |-> {CAok(1, 1, 2), CAok(2, 1, 3), CU(1, 0, 100, 1, TRUE, 1, 500000),
@@ -64,25 +64,36 @@ Universe ==
     [] U = 7 ->  \* P2P gossip with a UTXO source interleaved with rapid-gossip-sync snapshots
        [lookup |-> TRUE,
         M |-> {CAok(1, 1, 2), CAok(2, 1, 3), CU(1, 0, 100, 1, TRUE, 1, 500000),
-               CU(1, 0, 300, 1, TRUE, 2, 500000), CU(2, 1, 200, 3, TRUE, 3, 500000)}]
+               CU(1, 0, 300, 1, TRUE, 2, 500000), CU(2, 1, 200, 3, TRUE, 3, 500000),
+               NA(1, 250, 1, 1)}]       \* same timestamp as the node record of snapshot 2
+    [] U = 8 ->  \* asynchronous UTXO lookups: updates / node announcements held while pending
+       [lookup |-> TRUE,
+        M |-> {CAok(1, 1, 2), CU(1, 0, 200, 1, TRUE, 1, 500000), CU(1, 0, 100, 1, TRUE, 2, 500000),
+               CU(1, 1, 100, 2, TRUE, 3, 500000), CU(1, 0, 300, 2, TRUE, 4, 500000),
+               NA(1, 200, 1, 1), NA(1, 100, 1, 2), NA(2, 100, -2, 3)}]
 
 M == Universe.M
 
 MCInit ==
   /\ G = EmptyG /\ Gprev = EmptyG
   /\ lookup = Universe.lookup
+  /\ amode = (U = 8)
+  /\ pend = <<>> /\ hl = <<>>
   /\ caps = [c \in 1..3 |-> 1000]
   /\ tombC = {} /\ tombN = {} /\ delivered = {} /\ eff = {} /\ pure = TRUE
   /\ ptc = {} /\ ptp = {} /\ ptn = {}
   /\ hist = <<>>
 
 (* the decisions of the implementation *)
-CACode(m) ==
+CACodeG(m) ==
   IF ~CAValid(m) THEN "none"
   ELSE IF m.c \in Chs(G) /\ (IF G.ch[m.c].cap >= 0 THEN SamePair(m) ELSE ~lookup) THEN "none"
   ELSE IF m.c \in ptc \cup ptp \/ m.n1 \in ptn \/ m.n2 \in ptn THEN "none"
   ELSE IF m.c \in Chs(G) THEN (IF lookup THEN "replace" ELSE "none")
   ELSE "add"
+CACode(m) ==
+  IF amode /\ lookup /\ CACodeG(m) = "add" THEN (IF m.c \in Pending THEN "none" ELSE "pending")
+  ELSE CACodeG(m)
 Code(m) == IF m.k = "ca" THEN CACode(m) ELSE CHOOSE o \in Allowed(m) : TRUE
 CodeRFrom(g, t) ==
   LET g1 == Dropped(g, t) IN
@@ -94,54 +105,76 @@ CodeR(t) == CodeRFrom(G, t)
 RU(c, d, p, hmax) == [c |-> c, d |-> d, en |-> (p % 2 = 1), cltv |-> 10 + p, hmin |-> p, hmax |-> hmax,
                       fb |-> 100 + p, fp |-> 200 + p]
 Snap(i) ==
-  IF i = 1 THEN [ver |-> 1, ts |-> 150, anns |-> <<[c |-> 2, n1 |-> 1, n2 |-> 3, cap |-> -1]>>,
+  IF i = 1 THEN [ver |-> 1, ts |-> 150, anns |-> <<[c |-> 2, n1 |-> 1, n2 |-> 3, cap |-> -1]>>, nodes |-> <<>>,
                  upds |-> <<RU(1, 0, 8, 500000), RU(2, 1, 9, 500000)>>, prune |-> FALSE, t |-> 0]
-  ELSE [ver |-> 2, ts |-> 250, anns |-> <<[c |-> 2, n1 |-> 1, n2 |-> 3, cap |-> 1000], [c |-> 3, n1 |-> 2, n2 |-> 3, cap |-> -1]>>,
+  ELSE [ver |-> 2, ts |-> 250, nodes |-> <<[n |-> 1, ad |-> 7], [n |-> 3, ad |-> 8]>>, anns |-> <<[c |-> 2, n1 |-> 1, n2 |-> 3, cap |-> 1000], [c |-> 3, n1 |-> 2, n2 |-> 3, cap |-> -1]>>,
         upds |-> <<RU(1, 1, 10, 500000), RU(2, 0, 11, 1000001)>>, prune |-> TRUE, t |-> 150]
 
+NoHeld == [d0 |-> NoMsg, d1 |-> NoMsg, na |-> NoMsg, nb |-> NoMsg]
+Keep(h, m) == IF h = NoMsg \/ h.ts < m.ts THEN m ELSE h
+HlAfter(m) ==
+  LET o == Code(m) IN
+  IF o = "pending" THEN [x \in DOMAIN hl \cup {m.c} |-> IF x = m.c THEN NoHeld ELSE hl[x]]
+  ELSE IF m.k = "cu" /\ m.chain /\ m.c \notin Chs(G) /\ m.c \in Pending
+       THEN [hl EXCEPT ![m.c] = IF m.d = 0 THEN [@ EXCEPT !.d0 = Keep(@, m)] ELSE [@ EXCEPT !.d1 = Keep(@, m)]]
+  ELSE IF m.k = "na" /\ ~NAReject(m) /\ m.n \notin Nds(G)
+       THEN [x \in DOMAIN hl |->
+               IF m.n = pend[x].ca.n1 THEN [hl[x] EXCEPT !.na = Keep(@, m)]
+               ELSE IF m.n = pend[x].ca.n2 THEN [hl[x] EXCEPT !.nb = Keep(@, m)]
+               ELSE hl[x]]
+  ELSE hl
 MDeliver == \E m \in M :
   /\ Deliver(m, Code(m))
+  /\ hl' = HlAfter(m)
   /\ hist' = Append(hist, [op |-> "deliver", m |-> m])
+  /\ UNCHANGED <<ptc, ptp, ptn>>
+MResolve == \E c \in ResolveCs, ok \in BOOLEAN :
+  /\ c \in Pending
+  /\ Resolve(c, ok, IF ok THEN CACodeG(pend[c].ca) ELSE "none", <<hl[c].d0, hl[c].d1, hl[c].na, hl[c].nb>>)
+  /\ hl' = Restrict(hl, DOMAIN hl \ {c})
+  /\ hist' = Append(hist, [op |-> "resolve", c |-> c, ok |-> ok])
   /\ UNCHANGED <<ptc, ptp, ptn>>
 MFailC == \E c \in FailCs :
   /\ FailChan(c)
   /\ ptc' = IF c \in Chs(G) THEN ptc \cup {c} ELSE ptc
   /\ hist' = Append(hist, [op |-> "failc", c |-> c])
-  /\ UNCHANGED <<ptp, ptn>>
+  /\ UNCHANGED <<ptp, ptn, hl>>
 MFailN == \E n \in FailNs :
   /\ FailNode(n)
   /\ ptc' = ptc \cup ChansOf(G, n)
   /\ ptn' = IF n \in Nds(G) THEN ptn \cup {n} ELSE ptn
   /\ hist' = Append(hist, [op |-> "failn", n |-> n])
-  /\ UNCHANGED ptp
+  /\ UNCHANGED <<ptp, hl>>
 \* the clock jumps two weeks ahead: tombstones of failures (kept one week) expire, those the
 \* pruning pass itself creates stay
 MPrune == \E t \in PruneTs :
   /\ Prune(t, CodeR(t))
   /\ ptc' = {} /\ ptn' = {}
   /\ ptp' = ptp \cup CodeR(t)
+  /\ UNCHANGED hl
   /\ hist' = Append(hist, [op |-> "prune", t |-> t])
 \* tombstones are not persisted
 MReload ==
   /\ WithReload
   /\ Reload
-  /\ ptc' = {} /\ ptp' = {} /\ ptn' = {}
+  /\ ptc' = {} /\ ptp' = {} /\ ptn' = {} /\ hl' = <<>>
   /\ hist' = Append(hist, [op |-> "reload"])
 
 MRgs == \E i \in RgsSnaps :
   LET sn == Snap(i)
-      g2 == RgsUpds(RgsAnns(G, sn.anns, sn.ts), sn.upds, sn.ts)
+      g2 == RgsGraph(G, sn.ts, sn.anns, sn.nodes, sn.upds)
       R == IF sn.prune THEN CodeRFrom(g2, sn.t) ELSE {} IN
-  /\ Rgs(sn.ts, sn.anns, sn.upds, sn.prune, sn.t, R)
+  /\ Rgs(sn.ts, sn.anns, sn.nodes, sn.upds, sn.prune, sn.t, R)
   /\ IF sn.prune THEN ptc' = {} /\ ptn' = {} /\ ptp' = ptp \cup R ELSE UNCHANGED <<ptc, ptp, ptn>>
-  /\ hist' = Append(hist, [op |-> "rgs", ver |-> sn.ver, ts |-> sn.ts, anns |-> sn.anns, upds |-> sn.upds,
+  /\ UNCHANGED hl
+  /\ hist' = Append(hist, [op |-> "rgs", ver |-> sn.ver, ts |-> sn.ts, anns |-> sn.anns, nodes |-> sn.nodes, upds |-> sn.upds,
                            prune |-> sn.prune, t |-> sn.t])
 
-MCNext == MDeliver \/ MFailC \/ MFailN \/ MPrune \/ MReload \/ MRgs
+MCNext == MDeliver \/ MFailC \/ MFailN \/ MPrune \/ MReload \/ MRgs \/ MResolve
 MCSpec == MCInit /\ [][MCNext]_mvars
 
 Bound == Len(hist) <= MaxOps
-View == <<avars, ptc, ptp, ptn>>
+View == <<avars, ptc, ptp, ptn, hl>>
 
 \* the code's decisions are decisions the observable spec allows; precise tombstones are
 \* within the over-approximation
@@ -150,7 +183,16 @@ CodeWithinSpec ==
   /\ \A t \in PruneTs : LET g1 == Dropped(G, t) IN
        MustRemove(g1, t) \subseteq CodeR(t) /\ CodeR(t) \subseteq MayRemove(g1, t)
   /\ ptc \cup ptp \subseteq tombC /\ ptn \subseteq tombN
+  \* what the code holds per key while a lookup is pending is what Resolve has to apply
+  /\ DOMAIN hl = Pending
+  /\ \A c \in Pending :
+       LET ca == pend[c].ca
+           o == CACodeG(ca)
+           g1 == CAApplyG(G, ca, o) IN
+       /\ o \in CAAllowedG(G, ca)
+       /\ PickOK(g1, HeldCU(c, 0), hl[c].d0) /\ PickOK(g1, HeldCU(c, 1), hl[c].d1)
+       /\ PickOK(g1, HeldNA(c, ca.n1), hl[c].na) /\ PickOK(g1, HeldNA(c, ca.n2), hl[c].nb)
 
 EmitScripts ==
-  (Len(hist) > 0 /\ Len(hist) <= MaxOps) => PrintT(<<"SCRIPT", ToJson([lookup |-> lookup, u |-> U, ops |-> hist])>>)
+  (Len(hist) > 0 /\ Len(hist) <= MaxOps) => PrintT(<<"SCRIPT", ToJson([lookup |-> lookup, async |-> amode, u |-> U, ops |-> hist])>>)
 =============================================================================
